@@ -529,6 +529,77 @@ func offerScenario(t int, seed int64, slow bool) ([]map[string]any, error) {
 		}
 		out = append(out, ev)
 	}
+	// a REAL offerer: node A runs the production offer path (offer -> processOffer -> transfer goroutine) towards B with a
+	// batch of which B declines some keys (already stored) - the accepted keys are then not a prefix of the offer, and what
+	// reaches B's validation queue must still be exactly the accepted keys paired with their own contents (sweep mutant
+	// 28-C09: the sender picked the contents by position in the accept list)
+	if !race && !overlap && limit > 0 && heldIn(ctl) == 0 {
+		for len(B.Queue) > 0 {
+			<-B.Queue
+		}
+		n := 3 + rng.Intn(3)
+		var entries []*portalwire.ContentEntry
+		kf := []map[string]any{}
+		expect := []int{}
+		contents := map[string][]byte{}
+		keyIdx := map[string]int{}
+		for i := 0; i < n; i++ {
+			k := make([]byte, 6+rng.Intn(20))
+			rng.Read(k)
+			k[0], k[1] = byte(t), 0xee
+			cid := sha256.Sum256(k)
+			c := make([]byte, []int{1, 200, 2000, 30000}[rng.Intn(4)])
+			rng.Read(c)
+			inr := portalwire.VerifInRange(bid, radius, cid[:])
+			stored := false
+			if i == 0 || rng.Intn(3) == 0 { // the first key is always declined: the accepted ones never form a prefix
+				if err := inner.Put(k, cid[:], c); err == nil {
+					stored = true
+				}
+			}
+			entries = append(entries, &portalwire.ContentEntry{ContentKey: k, Content: c})
+			kf = append(kf, map[string]any{"k": i, "inrange": inr, "stored": stored, "inflight": false})
+			if inr && !stored {
+				expect = append(expect, i)
+			}
+			contents[string(k)] = c
+			keyIdx[string(k)] = i
+		}
+		req := &portalwire.OfferRequest{Kind: portalwire.TransientOfferRequestKind, Request: &portalwire.TransientOfferRequest{Contents: entries}}
+		ev := map[string]any{"ev": "of.real", "keys": kf, "expect": expect, "delivered": false, "dkeys": []int{}, "dequal": false, "detail": "", "version": version}
+		errCh := make(chan error, 1)
+		go func() {
+			_, err := portalwire.VerifOffer(A.P, B.P.Self(), req, &portalwire.NoPermit{})
+			errCh <- err
+		}()
+		select {
+		case err := <-errCh:
+			if err != nil {
+				ev["detail"] = err.Error()
+			}
+		case <-time.After(8 * time.Second):
+			ev["detail"] = "offer did not return"
+		}
+		if len(expect) > 0 && ev["detail"] == "" {
+			if el := waitDelivery(6 * time.Second); el != nil {
+				ev["delivered"] = true
+				dk := []int{}
+				eq := len(el.ContentKeys) == len(el.Contents)
+				for i, k := range el.ContentKeys {
+					idx, ok := keyIdx[string(k)]
+					if !ok {
+						idx = -1
+					}
+					dk = append(dk, idx)
+					if !ok || i >= len(el.Contents) || string(el.Contents[i]) != string(contents[string(k)]) {
+						eq = false
+					}
+				}
+				ev["dkeys"], ev["dequal"] = dk, eq
+			}
+		}
+		out = append(out, ev)
+	}
 	_ = rand.Int
 	_ = enode.ID{}
 	return out, nil
